@@ -301,6 +301,26 @@ ADDENDA_R6 = {
  "C12": "A zoo of enum classes (zero, negative, aliased, single, composite flag members) for the class-vs-keywords laws.",
  "C17": "Keyword context through every entry point for every context-parameter slot.",
 }
+ADDENDA_R7 = {
+ "C01": "Tier-4 dependency shapes also as Sequences with named members (derived members given as None).",
+ "C02": "require=False terminated regions with 1-3 byte terminators where they are representable.",
+ "C05": "Every sized T1/T2 term as a lazily skipped member (LazyStruct, Lazy, LazyArray).",
+ "C06": "Stack-aware fault oracle (an operation issued by a recovering combinator itself must surface as StreamError); a second exception class for raising operations; positions from 8-byte fields.",
+ "C07": "Keyword context through every entry point.",
+ "C09": "Alternatives failing with a non-construct exception; Pointer targets from a signed context value, interpreter and generated code.",
+ "C10": "Unsized Bytewise islands that read several bytes per request.",
+ "C11": "Sequence-typed contexts (str, bytes, list) with constants on either side.",
+ "C13": "Compiled twins of validators and Check.",
+ "C14": "64/128-bit integer digests; RawCopy fields reported while building (nested, Tell) against the parse of the built message.",
+ "C15": "Compression levels 0 and 5; gzip compared with the timestamp masked.",
+ "C16": "Counted arrays of length-prefixed and of counted elements.",
+ "C17": "Keyword-dependent sizeof of compiled instances in the history alphabet.",
+ "C18": "Lists with an element too many/few and dicts with a member missing; every context-parameter slot with a missing key under sizeof.",
+ "C19": "Const over every sub-construct that can encode the constant.",
+ "C20": "Lists that are prefixes of one another in the equality family.",
+}
+for _k, _v in ADDENDA_R7.items():
+    ADDENDA_R6[_k] = (ADDENDA_R6[_k] + " " if _k in ADDENDA_R6 else "") + _v
 for _k, _v in ADDENDA_R6.items():
     ADDENDA_R5[_k] = (ADDENDA_R5[_k] + " " if _k in ADDENDA_R5 else "") + _v
 for _k, _v in ADDENDA_R5.items():
